@@ -98,6 +98,46 @@ BITS = [1, 8, 16, 32, 64]
 # two-entry oracle as `documented_signed` in coq/props/C13.v. Everything else published is unsigned or boolean.
 DOCUMENTED_SIGNED = [805699630, 805699631]
 
+# Key ids of the interface description for the constants the library publishes (same hand-kept oracle as `documented_keys`
+# in coq/props/C13.v); constants published beyond this list are not judged.
+DOCUMENTED_KEYS = {
+    'CFG_NAVSPG_DYNMODEL': 0x20110021,
+    'CFG_NAVSPG_FIXMODE': 0x20110011,
+    'CFG_NMEA_PROTVER': 0x20930001,
+    'CFG_RATE_MEAS': 0x30210001,
+    'CFG_RATE_NAV': 0x30210002,
+    'CFG_RATE_NAV_PRIO': 0x20210004,
+    'CFG_SFCORE_USE_SF': 0x10080001,
+    'CFG_SFIMU_IMU_MNTALG_PITCH': 0x3006002e,
+    'CFG_SFIMU_IMU_MNTALG_ROLL': 0x3006002f,
+    'CFG_SFIMU_IMU_MNTALG_YAW': 0x4006002d,
+    'CFG_SIGNAL_BDS_B1_ENA': 0x1031000d,
+    'CFG_SIGNAL_BDS_ENA': 0x10310022,
+    'CFG_SIGNAL_GAL_E1_ENA': 0x10310007,
+    'CFG_SIGNAL_GAL_ENA': 0x10310021,
+    'CFG_SIGNAL_GLO_ENA': 0x10310025,
+    'CFG_SIGNAL_GLO_L1_ENA': 0x10310018,
+    'CFG_SIGNAL_GPS_ENA': 0x1031001f,
+    'CFG_SIGNAL_GPS_L1CA_ENA': 0x10310001,
+    'CFG_SIGNAL_QZSS_ENA': 0x10310024,
+    'CFG_SIGNAL_QZSS_L1CA_ENA': 0x10310012,
+    'CFG_SIGNAL_QZSS_L1S_ENA': 0x10310014,
+    'CFG_SIGNAL_SBAS_ENA': 0x10310020,
+    'CFG_SIGNAL_SBAS_L1CA_ENA': 0x10310005,
+    'CFG_TP_ALIGN_TO_TOW_TP2': 0x10050015,
+    'CFG_TP_LEN_LOCK_TP2': 0x40050010,
+    'CFG_TP_LEN_TP2': 0x4005000f,
+    'CFG_TP_PERIOD_LOCK_TP2': 0x4005000e,
+    'CFG_TP_PERIOD_TP2': 0x4005000d,
+    'CFG_TP_POL_TP2': 0x10050016,
+    'CFG_TP_PULSE_DEF': 0x20050023,
+    'CFG_TP_PULSE_LENGTH_DEF': 0x20050030,
+    'CFG_TP_TIMEGRID_TP2': 0x20050017,
+    'CFG_TP_TP2_ENA': 0x10050012,
+    'CFG_TP_USE_LOCKED_TP2': 0x10050014,
+    'CFG_UART1_BAUDRATE': 0x40520001,
+}
+
 
 def boundary_values(bits, signed):
     if bits == 1:
